@@ -372,6 +372,7 @@ type Keys struct {
 	Rho, Key, Tr []byte
 	S1           [L]Poly
 	S2, T0, T1   [K]Poly
+	AS1, T       [K]Poly // A*s1 and t = A*s1 + s2, both in [0,q): kept for the boundary classification of keys
 	A            [K][L]Poly // NTT domain
 }
 
@@ -409,7 +410,9 @@ func KeyGen(zeta []byte) *Keys {
 	t := mulAVec(&k.A, &k.S1)
 	k.PK = append([]byte{}, k.Rho...)
 	for i := 0; i < K; i++ {
+		k.AS1[i] = t[i]
 		t[i] = add(&t[i], &k.S2[i])
+		k.T[i] = t[i]
 		for j := 0; j < N; j++ {
 			r1, r0 := Power2Round(t[i][j])
 			k.T1[i][j], k.T0[i][j] = r1, mod(r0)
